@@ -84,6 +84,8 @@ FORMS = [
     ('f-str', {'form': 'f', 'f': 'E1&"x"', 'ct': 'str', 'cv': 'cached'},
      'text:cached'),
     ('f-b', {'form': 'f', 'f': 'E1>E2', 'ct': 'b', 'cv': True}, 'bool:True'),
+    ('f-inlineStr', {'form': 'f', 'f': 'E1&"x"', 'ct': 'inlineStr',
+                     'cv': 'cached'}, 'text:cached'),
     # a cached TEXT that spells a number stays text
     ('f-str-num', {'form': 'f', 'f': 'E1&"x"', 'ct': 'str', 'cv': '007'},
      'text:007'),
@@ -351,6 +353,36 @@ def run_sheets(order, ignore_mask, ctx):
                   nontriv)
 
 
+# ---- family: sheets that hold a single cell -------------------------------------
+LONE_FORMS = [('n', {'form': 'n', 'v': 7}), ('f', {'form': 'f', 'f': '3+4'}),
+              ('s', {'form': 's', 'v': '7'})]
+
+
+def run_lone(fi, pos, fpos, ctx):
+    """Sheet 'Rates' stores exactly one cell, at GRID[pos]; sheet 'Sheet1'
+    stores exactly one cell, a formula at GRID[fpos] that doubles it."""
+    fname, spec = LONE_FORMS[fi]
+    at, fat = GRID[pos], GRID[fpos]
+    sheets = [('Sheet1', {fat: {'form': 'f', 'f': 'Rates!%s*2' % at}}),
+              ('Rates', {at: dict(spec)})]
+    key0 = 'C11/lone/%s/%s/%s' % (fname, at, fat)
+    inputs = {'family': 'lone', 'fi': fi, 'pos': pos, 'fpos': fpos}
+    tags = ['sheet:single-cell', 'form:' + fname] + (
+        ['lone:A1'] if 'A1' in (at, fat) else [])
+    try:
+        model = load(sheets)
+    except Exception as exc:  # noqa: BLE001
+        ctx.fail(key0 + '/load', tags, inputs, 'loads', lib.exc_obs(exc))
+        return
+    got_addrs = sorted(a for a, c in model.cells.items()
+                       if c.formula is not None or c.value not in (None, ''))
+    ctx.check(key0 + '/addresses', repr(got_addrs),
+              repr(sorted(['Rates!' + at, 'Sheet1!' + fat])),
+              tags + ['oracle:addresses'], inputs)
+    ctx.check(key0 + '/eval', lib.eval_addr(model, 'Sheet1!' + fat),
+              'num:14.0', tags + ['oracle:evaluate'], inputs)
+
+
 # ---- family: two loads in one process --------------------------------------------
 # What a load yields depends on its own arguments only - not on an earlier load
 # in the same process (another workbook, other ignore arguments).
@@ -586,6 +618,12 @@ def run_names(ctx):
     sheets[0][1]['E4'] = {'form': 'f', 'f': 'SUM(qrange)'}
     names = {'cellname': 'Sheet1!$B$2', 'rangename': 'Sheet1!$A$1:$B$2',
              'qcell': "'My Sheet'!$C$3", 'qrange': "'My Sheet'!$A$1:$A$3"}
+    # a range name on a sheet whose name holds an apostrophe (doubled in the
+    # reference)
+    sheets.append(("It's", {'B%d' % r: {'form': 'n', 'v': 1000 + r}
+                            for r in (1, 2, 3)}))
+    sheets[0][1]['E5'] = {'form': 'f', 'f': 'SUM(arange)'}
+    names['arange'] = "'It''s'!$B$1:$B$3"
     inputs = {'family': 'names'}
     try:
         model = load(sheets, names)
@@ -630,6 +668,14 @@ def run_names(ctx):
     ctx.check('C11/names/eval/SUM(qrange)', lib.eval_addr(model, 'Sheet1!E4'),
               lib.norm(v(1, 'A', 1) + v(1, 'A', 2) + v(1, 'A', 3)),
               ['name:range', 'name:quoted-sheet', 'oracle:evaluate'], inputs)
+    ctx.check('C11/names/arange', target('arange'),
+              "range:[[\"It's!B1\"], [\"It's!B2\"], [\"It's!B3\"]]",
+              ['name:range', 'name:quoted-sheet', 'sheetname:apostrophe'],
+              inputs)
+    ctx.check('C11/names/eval/SUM(arange)', lib.eval_addr(model, 'Sheet1!E5'),
+              lib.norm(3006), ['name:range', 'name:quoted-sheet',
+                               'sheetname:apostrophe', 'oracle:evaluate'],
+              inputs)
     ctx.check('C11/names/get/cellname',
               lib.observe(model.get_cell_value, 'cellname'),
               lib.norm(v(0, 'B', 2)), ['name:cell', 'oracle:get'], inputs)
@@ -735,6 +781,8 @@ def plan(tier):
         shards.append({'family': 'form', 'fi': fi, 'date1904': True})
     shards.append({'family': 'loads'})
     shards.append({'family': 'names-sparse'})
+    for fi in range(len(LONE_FORMS)):
+        shards.append({'family': 'lone', 'fi': fi})
     return shards
 
 
@@ -748,6 +796,13 @@ def run_shard(shard, ctx):
         ctx.sample({'family': f, 'form': FORMS[shard['fi']][0],
                     'spec': FORMS[shard['fi']][1],
                     'date1904': shard.get('date1904', False)})
+    elif f == 'lone':
+        for pos in range(len(GRID)):
+            for fpos in range(len(GRID)):
+                run_lone(shard['fi'], pos, fpos, ctx)
+        ctx.sample({'family': f, 'form': LONE_FORMS[shard['fi']][0],
+                    'sheets': {'Sheet1': {'A1': '=Rates!A1*2'},
+                               'Rates': {'A1': 7}}})
     elif f == 'names-sparse':
         for mask in range(4):
             for holes in SPARSE_HOLES:
@@ -787,6 +842,8 @@ def replay(inputs, ctx):
                           inputs.get('date1904', False))
     elif f == 'loads':
         run_loads(inputs['first'], inputs['second'], ctx)
+    elif f == 'lone':
+        run_lone(inputs['fi'], inputs['pos'], inputs['fpos'], ctx)
     elif f == 'names-sparse':
         run_names_sparse(inputs['mask'],
                          frozenset(tuple(h) for h in inputs['holes']), ctx)
